@@ -320,8 +320,9 @@ func (s *vfC09Stats) add(v vfC09Verdict) {
 }
 
 func (s *vfC09Stats) arrival(P, off, gap time.Duration) {
+	// within 1 ns of a boundary between two periods (the creation instant itself does not count)
 	m := off % P
-	if m == 0 || m == 1 || m == P-1 {
+	if off >= P-1 && (m == 0 || m == 1 || m == P-1) {
 		s.boundary = true
 	}
 	if gap >= 2*P {
@@ -359,6 +360,7 @@ func (s *vfC09Stats) classes(vf *vfCollector, prefix string) {
 
 func TestVerifC09Seq(t *testing.T) {
 	vf := vfBegin(t, "C09")
+	vf.maxSample = 2
 	defer vf.End()
 	rapid.Check(t, func(rt *rapid.T) {
 		pol := vfC09GenPolicy(rt, true)
@@ -434,6 +436,7 @@ type vfC09Res struct {
 
 func TestVerifC09Conc(t *testing.T) {
 	vf := vfBegin(t, "C09")
+	vf.maxSample = 2
 	defer vf.End()
 	rapid.Check(t, func(rt *rapid.T) {
 		pol := vfC09GenPolicy(rt, true)
@@ -514,6 +517,7 @@ func TestVerifC09Conc(t *testing.T) {
 
 func TestVerifC09MqttPattern(t *testing.T) {
 	vf := vfBegin(t, "C09")
+	vf.maxSample = 2
 	defer vf.End()
 	rapid.Check(t, func(rt *rapid.T) {
 		mode := rapid.SampledFrom([]string{"request", "bytes", "request+bytes", "request+bytes"}).Draw(rt, "mode")
@@ -557,7 +561,7 @@ func TestVerifC09MqttPattern(t *testing.T) {
 		n := rapid.IntRange(1, 120).Draw(rt, "packets")
 		var hist strings.Builder
 		st := &vfC09Stats{}
-		bigPacket := false
+		bigPacket, multiPacket := false, false
 		for i := 0; i < n; i++ {
 			kind := rapid.SampledFrom(vfC09GapKinds).Draw(rt, "gap")
 			gap := vfC09Gap(kind, P, clk.Off()-start)
@@ -584,6 +588,9 @@ func TestVerifC09MqttPattern(t *testing.T) {
 					}
 				}
 			}
+			if ok && byteL != nil && byteL.admitted[j] >= 1 {
+				multiPacket = true
+			}
 			counts := []int{1}
 			if mode == "bytes" {
 				counts = []int{size}
@@ -604,6 +611,9 @@ func TestVerifC09MqttPattern(t *testing.T) {
 		vf.Class("mqtt mode="+mode, fmt.Sprintf("mqtt timePeriod=%v", P))
 		if bigPacket {
 			vf.Class("mqtt packet-larger-than-bytesRate")
+		}
+		if multiPacket {
+			vf.Class("mqtt byte-limited-period-admits-several-packets")
 		}
 		st.classes(vf, "mqtt ")
 		vf.Case(st.nontrivial(), "mqtt|"+pol+"|"+hist.String(), func() interface{} {
